@@ -71,8 +71,8 @@ def run(ctx) -> None:
     r01_6(ctx)
     r01_7(ctx)
     ctx.floor("merge_cells", 6)
-    ctx.floor("yield_sites", 25)
-    ctx.floor("source_loops", 6)
+    ctx.floor("yield_sites", 18)
+    ctx.floor("source_loops", 4)
 
 
 # --------------------------------------------------------------------------- R01.1
